@@ -115,6 +115,8 @@ def main(argv=None):
         tasks = [t for t in tasks if a.only in t.get('name', '')]
     for t in tasks:
         t['tier'] = tier
+    # longest-first scheduling when the harness gives a cost hint
+    tasks.sort(key=lambda t: -t.get('cost', 0))
     budget = getattr(mod, 'BUDGET_S', {}).get(tier, 1500)
     results = []
     ctx = mp.get_context('spawn')
